@@ -1003,6 +1003,11 @@ func runNotHeld(cfg waitCfg) (res waitResult) {
 		}
 		if p == "" {
 			probe("Lock(1)", func() { dm.Lock(1) }, func() { dm.Unlock(1) }, func() { dm.RUnlock(1) }, "notheld/dag/Unlock-while-read-held-by-other")
+		} else if _, parked := tryOp(C, func() { dm.Lock(1) }); !parked {
+			// the panic is accepted, but the original holder is still inside: nothing conflicting may be granted
+			res.viol("notheld/dag/Unlock-while-read-held-by-other/conflicting-lock-granted-after-panic", "after the mismatched Unlock(1) panicked, Lock(1) is granted although the reader still holds entity 1")
+		} else {
+			res.Parked++
 		}
 		res.Checks++
 	case "dag/RUnlock-while-write-held-by-other":
@@ -1013,6 +1018,10 @@ func runNotHeld(cfg waitCfg) (res waitResult) {
 		}
 		if p == "" {
 			probe("RLock(1)", func() { dm.RLock(1) }, func() { dm.RUnlock(1) }, func() { dm.Unlock(1) }, "notheld/dag/RUnlock-while-write-held-by-other")
+		} else if _, parked := tryOp(C, func() { dm.Lock(1) }); !parked {
+			res.viol("notheld/dag/RUnlock-while-write-held-by-other/conflicting-lock-granted-after-panic", "after the mismatched RUnlock(1) panicked, a second Lock(1) is granted although the first writer still holds entity 1")
+		} else {
+			res.Parked++
 		}
 		res.Checks++
 	case "dag/Unlock-while-two-readers":
